@@ -225,13 +225,15 @@ pub fn record(args: &Args) {
     let parts = args.get_u64("parts", 1);
     let secs = args.get_u64("event-timeout", 30);
     let light = args.get_u64("light", 1).max(1);
+    let extremes_every = args.get_u64("extremes-every", 1).max(1);
     let mut inputs: Vec<String> = Vec::new();
 
     // sentences, corruptions, numeric extremes and token mutations chosen by the specification
     for key in ["cases", "extremes"] {
         if let Some(path) = args.opt.get(key) {
             for (i, c) in read_ndjson(path).iter().enumerate() {
-                if key == "extremes" || (i as u64 + seed) % every == 0 {
+                let keep = if key == "extremes" { (i as u64 + seed) % extremes_every == 0 } else { (i as u64 + seed) % every == 0 };
+                if keep {
                     inputs.push(c["text"].as_str().unwrap().to_string());
                 }
             }
